@@ -12,6 +12,7 @@ import (
 	"google.golang.org/protobuf/reflect/protoreflect"
 	"pgregory.net/rapid"
 
+	"verif/drive"
 	"verif/evid"
 	"verif/ref"
 	"verif/route"
@@ -34,6 +35,8 @@ type Req struct {
 	// template of the rule set binds; it must never displace the path text.
 	QField string `json:"q_field,omitempty"`
 	QValue string `json:"q_value,omitempty"`
+	// Raw: the client's own (non-canonical) percent-encoding of Path on the request line.
+	Raw string `json:"raw,omitempty"`
 }
 
 func (r Req) query() string {
@@ -92,7 +95,7 @@ func Check(c Case) ([]evid.Violation, []reqResult) {
 	var vs []evid.Violation
 	out := make([]reqResult, len(c.Reqs))
 	for i, r := range c.Reqs {
-		o := b.Do(r.Verb, r.Path, r.query())
+		o := b.DoTarget(r.Verb, r.Path, r.Raw, r.query())
 		if o.Method == "" {
 			continue
 		}
@@ -258,6 +261,16 @@ func genCase(t *rapid.T) Case {
 			}
 		}
 		rq := Req{Verb: verb, Path: path, Kind: kind}
+		if len(path) > 0 && strings.HasPrefix(path, "/") && rapid.IntRange(0, 5).Draw(t, "spelled") == 0 {
+			at := rapid.IntRange(0, len(path)-1).Draw(t, "spellAt")
+			how := rapid.IntRange(1, 2).Draw(t, "spellHow")
+			rq.Raw = drive.Spell(path, func(i int) int {
+				if i == at {
+					return how
+				}
+				return 0
+			})
+		}
 		if len(strFields) > 0 && rapid.IntRange(0, 3).Draw(t, "decoy") == 0 {
 			rq.QField = rapid.SampledFrom(strFields).Draw(t, "qfield")
 			rq.QValue = route.GenSegment(t, "qvalue")
